@@ -141,6 +141,27 @@ example : versionFor (some 0x5F94C216) 20 = toTxt "Cobalt Strike 4.2 (Nov 06, 20
     versionFor (some 0) 78 = toTxt "Cobalt Strike 4.10 (Jul 16, 2024)" ∧
     versionFor (some 12345) 78 = toTxt "Unknown" := by decide +kernel
 
+/-! ## histories on one `BeaconConfig` object -/
+
+/-- a `.version` read after ANY history returns the stateless value for the export stamp in force at that moment:
+earlier reads, earlier stamps, and assignments of the other attributes have no influence. -/
+theorem version_history_independent (enums : List Nat) (s : CfgState) (ops : List CfgOp) :
+    cfgRun enums s (ops ++ [.readVersion]) =
+      cfgRun enums s ops ++ [.version (configVersion (lastStamp s.exportStamp ops) enums)] := by
+  rw [cfgRun_append, ← cfgAfter_stamp]
+  simp [cfgRun, cfgRead]
+
+
+/-- assignments of `pe_compile_stamp` / `architecture` never influence any read -/
+theorem version_history_ignores_other_attrs (enums : List Nat) (s : CfgState) (ops : List CfgOp) :
+    cfgRun enums s ops = cfgRun enums ⟨s.exportStamp, none, none⟩ (ops.filter (fun op => !op.isOtherAttr)) :=
+  cfgRun_ignores_other_attrs enums s ops
+
+example : cfgRun [20] {} [.readVersion, .setExportStamp (some 0x5F94C216), .setArch (some .x64), .readVersion,
+      .setExportStamp (some 0), .readVersion] =
+    [.version (.ok (toTxt "Cobalt Strike 3.4 (Jul 29, 2016)")), .version (.ok (toTxt "Cobalt Strike 4.2 (Nov 06, 2020)")),
+     .version (.ok (toTxt "Cobalt Strike 3.4 (Jul 29, 2016)"))] := by decide +kernel
+
 /-! ## PE artifacts of a stage `P ++ I`
 
 `Stage P I maxrange` (Lemmas): `I` starts with a DOS header whose signed `e_lfanew` lies in `(0, maxrange)`, the
@@ -242,6 +263,39 @@ theorem mz_found {P I : Bytes} {maxrange : Nat} (h : Stage P I maxrange)
     (findStagePrependAppend f (some 0) maxrange).1 = .ok (prependOf P, Img.append I) :=
   ⟨mz_offset_found h pos k, architecture_found h pos k, compile_stamps_found h hc pos k, magic_mz_found h pos k,
     magic_pe_found h pos k, prepend_append_found h hc pos k⟩
+
+/-- several calls on ONE file object (any order, any `fh.seek` in between, any position left behind by earlier calls):
+every call on a stage reports the image's artifacts — no result depends on call order or previous position -/
+theorem pe_history_independent {P I : Bytes} {maxrange : Nat} (h : Stage P I maxrange) (hc : Img.headersEnd I ≤ I.length)
+    (calls : List PeCall) (hs : ∀ c ∈ calls, c.start = some 0) (f : PyFile) (hf : f.data = P ++ I) :
+    (peRun maxrange f calls).map (·.1) = calls.map (fun c => stageAnswer P I c.op) := by
+  induction calls generalizing f with
+  | nil => rfl
+  | cons c cs ih =>
+    have hstart : c.start = some 0 := hs c (by simp)
+    unfold peRun
+    simp only [List.map_cons]
+    -- the file the call runs on: same bytes, some position
+    have hf0 : ∃ pos k, seekOpt f c.seekTo = ⟨P ++ I, pos, k⟩ := by
+      obtain ⟨d, p, k⟩ := f
+      simp only at hf
+      subst hf
+      cases c.seekTo with
+      | none => exact ⟨p, k, rfl⟩
+      | some q => exact ⟨q, k, rfl⟩
+    obtain ⟨pos, k, hf0⟩ := hf0
+    rw [hf0, hstart]
+    have hsame := same_peCall ⟨P ++ I, pos, k⟩ (some 0) maxrange c.op
+    have hres : (peCall ⟨P ++ I, pos, k⟩ (some 0) maxrange c.op).1 = stageAnswer P I c.op := by
+      cases c.op
+      · simp only [peCall, stageAnswer, mz_offset_found h pos k]
+      · simp only [peCall, stageAnswer, architecture_found h pos k]
+      · simp only [peCall, stageAnswer, compile_stamps_found h hc pos k]
+      · simp only [peCall, stageAnswer, magic_mz_found h pos k]
+      · simp only [peCall, stageAnswer, magic_pe_found h pos k]
+      · simp only [peCall, stageAnswer, prepend_append_found h hc pos k]
+    rw [hres, ih (fun c' hc' => hs c' (by simp [hc'])) _ hsame.1]
+
 
 /-! ## the file-like-generic functions (used over the XorEncoded view by C01/C09) coincide with the PyFile models -/
 
